@@ -26,8 +26,8 @@ def sh(cmd, **kw):
 def main():
     log = open(sys.argv[1], "a")
     ids = sys.argv[2:] or sorted(os.listdir(SEEDED))
-    head = sh("git -C /repo log -1 --format=%h").stdout.strip()
     for sid in ids:
+        head = sh("git -C /repo log -1 --format=%h").stdout.strip()
         d = os.path.join(SEEDED, sid)
         meta_p = os.path.join(d, "meta.json")
         if not os.path.exists(meta_p):
@@ -53,6 +53,13 @@ def main():
                 open(os.path.join(d, "patch.diff"), "w").write(diff)
             tests = sh(f"cd {wt} && /venv/bin/python -m pytest -q -p no:cacheprovider tests 2>&1 | tail -1", env=env).stdout.strip()
             mut = sh(f"cd {wt} && timeout 300 /venv/bin/python {d}/demo.py", env=env).returncode
+            if mut == 0 and clean == 0:
+                # the change no longer breaks anything observable at this HEAD (a later fix: commit closed the
+                # path it relied on): keep the record of the commit it applied to and was caught at
+                meta["neutralised_at_repo_commit"] = head
+                json.dump(meta, open(meta_p, "w"), indent=1)
+                print(sid, f"tests=[{tests}] demo clean={clean} changed={mut} NEUTRALISED (demo passes with the change)", file=log, flush=True)
+                continue
             verdicts = {}
             ck = "caught_by" if "caught_by" in meta else "caught_by_checks"
             nk = "not_caught_by" if "not_caught_by" in meta else "not_caught_by_checks_tried"
